@@ -77,7 +77,6 @@ static struct slot s_slots[MAXSLOT];
 static aws_thread_once s_once_flag[MAXONCE];
 static int s_once_regs[MAXONCE][2];
 static int s_once_nregs[MAXONCE];
-static struct cbrec s_once_cbs[MAXONCE][2];
 static long s_fail_n = -1;
 static int s_fail_err;
 static uint64_t s_tick;
@@ -178,14 +177,29 @@ static const char *s_dstate(enum aws_thread_detach_state d) {
     }
 }
 
+/* the at-exit record of (thread slot, callback id): registering the same id again on a thread passes the SAME
+ * (callback, user_data) pair to aws_thread_current_at_exit - every registration must still get its own run */
+static struct cbrec *s_rec(int slot, int id) {
+    HC_CHECK(slot >= 0 && slot < MAXSLOT);
+    struct slot *s = &s_slots[slot];
+    for (int i = 0; i < s->ncbs; ++i) {
+        if (s->cbs[i].id == id) {
+            return &s->cbs[i];
+        }
+    }
+    HC_CHECK(s->ncbs < MAXCB);
+    struct cbrec *r = &s->cbs[s->ncbs++];
+    r->slot = slot;
+    r->id = id;
+    return r;
+}
+
 /* once-callback: registers the configured at-exit callbacks on whichever thread runs it */
 static void s_once_cb(void *user_data) {
     int id = (int)(intptr_t)user_data;
     int me = s_current_slot();
     for (int i = 0; i < s_once_nregs[id]; ++i) {
-        struct cbrec *r = &s_once_cbs[id][i];
-        r->slot = me;
-        r->id = s_once_regs[id][i];
+        struct cbrec *r = s_rec(me < 0 ? 0 : me, s_once_regs[id][i]);
         int rc = aws_thread_current_at_exit(s_atexit_cb, r);
         printf("P reg s%d cb%d rc=%s\n", me, r->id, hc_err(rc));
     }
@@ -270,10 +284,7 @@ static void s_run_actions(struct slot *s) {
                 break;
             }
             case 'A': {
-                HC_CHECK(s->ncbs < MAXCB);
-                struct cbrec *r = &s->cbs[s->ncbs++];
-                r->slot = s->id;
-                r->id = (int)a->a;
+                struct cbrec *r = s_rec(s->id, (int)a->a);
                 int rc = aws_thread_current_at_exit(s_atexit_cb, r);
                 printf("P reg s%d cb%d rc=%s\n", s->id, r->id, hc_err(rc));
                 break;
